@@ -288,11 +288,15 @@ def load_json(path, default):
         return default
 
 
+LAST_EVIDENCE = None
+
+
 def run_property(prop, module, facts_dir, tier, seed, extra=None, write_evidence=True, crates=None):
     """module.RULES: list of (rule_id, template, title, fn(ctx)). Returns exit code."""
     t0 = time.time()
     ctx = Ctx(prop, facts_dir, tier)
-    floors = load_json(os.path.join(VERIF, "tables", "floors.json"), {})
+    ctx.sweep = bool(extra and extra.get("sweep"))
+    floors = {} if ctx.sweep else load_json(os.path.join(VERIF, "tables", "floors.json"), {})
     known = load_json(os.path.join(VERIF, "known_findings.json"), {"findings": []})
     rules_out = []
     for rid, template, title, fn in module.RULES:
@@ -308,7 +312,7 @@ def run_property(prop, module, facts_dir, tier, seed, extra=None, write_evidence
         fl = floors.get(rid)
         if fl is not None and n < fl:
             ctx.bad("floor", "rule enumerated %d instances, fewer than the confirmed floor %d (anchors moved? rule would pass vacuously)" % (n, fl))
-        elif fl is None:
+        elif fl is None and not ctx.sweep:
             ctx.note("no floor recorded for %s (instances=%d)" % (rid, n))
         rules_out.append({"rule": rid, "template": template, "title": title, "instances": n})
 
@@ -389,6 +393,8 @@ def run_property(prop, module, facts_dir, tier, seed, extra=None, write_evidence
         os.makedirs(os.path.join(VERIF, "evidence"), exist_ok=True)
         with open(os.path.join(VERIF, "evidence", prop + ".json"), "w") as f:
             json.dump(ev, f, indent=1)
+    global LAST_EVIDENCE
+    LAST_EVIDENCE = ev
     total = len(ctx.insts)
     print("%s: %d rule instances, %d ok, %d known findings, %d violations (%.1fs)" % (prop, total, cov["discharged"], len(known_hits), len(violations), time.time() - t0))
     for r in per_rule.values():
